@@ -499,6 +499,7 @@ func streamIcpt(c *Ctx) {
 	}
 	c.exhaust = true
 	c.Note("all interceptor lists over {1,2,3,nil} up to length %d; all compositions into consecutive groups for lists up to 4; %d random nestings (depth<=3) per list", maxLen, reps)
+	icptSharedAndMixedProbes(c)
 	// slices with spare capacity / sub-slices of one backing array (aliasing hazards)
 	for _, side := range sides {
 		for _, kind := range kinds {
@@ -563,6 +564,119 @@ func icptScratchSliceProbe(c *Ctx, side, kind string, groupLen int) {
 		c.Count("scratch-slice-probe")
 		if got != want {
 			c.Fail("icpt-alias", fmt.Sprintf("%s %s call #%d after the caller overwrote the %d-element slice it had passed to WithInterceptors", side, kind, round+1, groupLen), got, "the chain is what was declared at construction: want "+want)
+		}
+	}
+}
+
+// icptSharedAndMixedProbes (oracle only):
+//
+//	(a) one WithInterceptors option value used in two configurations behind DIFFERENT leading
+//	    groups: each configuration's chain is the flat concatenation of its own list;
+//	(b) function-style (UnaryInterceptorFunc) and struct-style interceptors mixed in one list
+//	    keep their declaration order on unary calls.
+func icptSharedAndMixedProbes(c *Ctx) {
+	call := func(cl *connect.Client[emptypb.Empty, emptypb.Empty], kind string) error {
+		if kind == "unary" {
+			_, err := cl.CallUnary(context.Background(), connect.NewRequest(&emptypb.Empty{}))
+			return err
+		}
+		s := cl.CallClientStream(context.Background())
+		_, err := s.CloseAndReceive()
+		return err
+	}
+	mkHandler := func(kind string, hopts ...connect.HandlerOption) http.Handler {
+		if kind == "unary" {
+			return connect.NewUnaryHandler("/s/m", func(context.Context, *connect.Request[emptypb.Empty]) (*connect.Response[emptypb.Empty], error) {
+				return connect.NewResponse(&emptypb.Empty{}), nil
+			}, hopts...)
+		}
+		return connect.NewClientStreamHandler("/s/m", func(ctx context.Context, s *connect.ClientStream[emptypb.Empty]) (*connect.Response[emptypb.Empty], error) {
+			return connect.NewResponse(&emptypb.Empty{}), nil
+		}, hopts...)
+	}
+	for _, side := range []string{"client", "handler"} {
+		for _, kind := range []string{"unary", "stream"} {
+			// (a)
+			log := &eventLog{}
+			shared := connect.WithInterceptors(&logIcpt{id: 9, log: log})
+			first := []connect.Option{connect.WithInterceptors(&logIcpt{id: 1, log: log}), shared}
+			second := []connect.Option{connect.WithOptions(connect.WithInterceptors(&logIcpt{id: 2, log: log}, nil, &logIcpt{id: 3, log: log})), shared}
+			for i, cfg := range [][]connect.Option{first, second, first} {
+				var cl *connect.Client[emptypb.Empty, emptypb.Empty]
+				if side == "client" {
+					var copts []connect.ClientOption
+					for _, o := range cfg {
+						copts = append(copts, o)
+					}
+					cl = connect.NewClient[emptypb.Empty, emptypb.Empty](&inprocClient{h: mkHandler(kind)}, "http://h/s/m", connect.WithClientOptions(copts...))
+				} else {
+					var hopts []connect.HandlerOption
+					for _, o := range cfg {
+						hopts = append(hopts, o)
+					}
+					cl = connect.NewClient[emptypb.Empty, emptypb.Empty](&inprocClient{h: mkHandler(kind, connect.WithHandlerOptions(hopts...))}, "http://h/s/m")
+				}
+				log.reset()
+				err := call(cl, kind)
+				got := idsOf(log.events, "in")
+				if err != nil && !errors.Is(err, context.Canceled) {
+					got = "call-failed: " + err.Error()
+				}
+				want := []string{"1,9", "2,3,9", "1,9"}[i]
+				c.Count("shared-option-probe")
+				if got != want {
+					c.Fail("icpt-alias", fmt.Sprintf("one WithInterceptors value shared by two %s configurations with different leading groups, configuration #%d, %s call", side, i+1, kind), got, "each configuration's chain is the flat concatenation of its own declared list: want "+want)
+				}
+			}
+		}
+		// (b) unary calls only: a UnaryInterceptorFunc does not take part in streaming calls
+		for _, shape := range []string{"one-group", "one-per-group", "nested"} {
+			log := &eventLog{}
+			fn := func(id int) connect.Interceptor {
+				return connect.UnaryInterceptorFunc(func(next connect.UnaryFunc) connect.UnaryFunc {
+					return func(ctx context.Context, req connect.AnyRequest) (connect.AnyResponse, error) {
+						log.add("in", id)
+						res, err := next(ctx, req)
+						log.add("out", id)
+						return res, err
+					}
+				})
+			}
+			list := []connect.Interceptor{fn(1), &logIcpt{id: 2, log: log}, nil, fn(3), &logIcpt{id: 4, log: log}}
+			var opts []connect.Option
+			switch shape {
+			case "one-group":
+				opts = []connect.Option{connect.WithInterceptors(list...)}
+			case "one-per-group":
+				for _, ic := range list {
+					opts = append(opts, connect.WithInterceptors(ic))
+				}
+			default:
+				opts = []connect.Option{connect.WithOptions(connect.WithInterceptors(list[:2]...), connect.WithOptions(connect.WithInterceptors(list[2:4]...))), connect.WithInterceptors(list[4])}
+			}
+			var cl *connect.Client[emptypb.Empty, emptypb.Empty]
+			if side == "client" {
+				var copts []connect.ClientOption
+				for _, o := range opts {
+					copts = append(copts, o)
+				}
+				cl = connect.NewClient[emptypb.Empty, emptypb.Empty](&inprocClient{h: mkHandler("unary")}, "http://h/s/m", copts...)
+			} else {
+				var hopts []connect.HandlerOption
+				for _, o := range opts {
+					hopts = append(hopts, o)
+				}
+				cl = connect.NewClient[emptypb.Empty, emptypb.Empty](&inprocClient{h: mkHandler("unary", hopts...)}, "http://h/s/m")
+			}
+			err := call(cl, "unary")
+			got := idsOf(log.events, "in") + " / " + idsOf(log.events, "out")
+			if err != nil {
+				got = "call-failed: " + err.Error()
+			}
+			c.Count("mixed-kinds-probe")
+			if got != "1,2,3,4 / 4,3,2,1" {
+				c.Fail("icpt-order", fmt.Sprintf("function-style and struct-style interceptors mixed [fn1 S2 nil fn3 S4], %s, %s, unary call", shape, side), got, "declaration order, first outermost: want 1,2,3,4 on the way in and 4,3,2,1 on the way out")
+			}
 		}
 	}
 }
